@@ -211,7 +211,7 @@ for _p, _c in PROPS.items():
         if _p in _TAGGED[_u] and _u not in _c["verus"] and _c["level"] == "proof":
             _c["verus"].append(_u)
     _c.setdefault("note", TRUST_COMMON)
-    _c.setdefault("design_ref", "DESIGN.md section 6, %s" % _p)
+    _c.setdefault("design_ref", "DESIGN.md section 6 (plan) and 11.2b (as built), %s" % _p)
 
 NOT_APPLICABLE = {
     "C16": "liveness over an unbounded packet history of the composed sender and receiver (\"within two further cycles\"); "
